@@ -188,6 +188,9 @@ WORKER_ATTRS = {
     '_cancelled_task_ids', '_active_task', '_running', '_mailboxes',
     '_mailbox_counter', '_cache', 'most_recent_read_submit',
     'read_receipt_mutex', 'incoming_thread'}
+# attributes that exist only on trees with a later maintainer fix (the
+# harness creates them always; the list check accepts both trees)
+WORKER_ATTRS_OPTIONAL = {'_mailbox_mutex'}
 MANAGER_ATTRS = {
     'upstream', 'most_recent_read_submit', 'last_num_idle_sent_up',
     'lower_id_bound', 'upper_id_bound'}
@@ -209,6 +212,8 @@ def check_attr_lists():
              DETACHED_ATTRS),
             ('Worker.__init__', Worker.__init__, WORKER_ATTRS)):
         real = _assigned_self_attrs(fn)
+        if fn is Worker.__init__:
+            real = real - WORKER_ATTRS_OPTIONAL
         if real != mine:
             problems.append(f'{what}: code assigns {sorted(real)}, harness '
                             f'fills {sorted(mine)}')
@@ -1269,6 +1274,7 @@ class Net:
             w._cache = {}
             w.most_recent_read_submit = None
             w.read_receipt_mutex = Lock()
+            w._mailbox_mutex = Lock()
             w.incoming_thread = None
             self.workers.append(w)
             self.links.append((parent, parent.emp_conns[slot], w, w._conn))
